@@ -461,8 +461,12 @@ pub fn record_cross(out: &mut Out, tier: &str, seed: u64) {
         }
     }
     // protocol name / level table: every level with correct and corrupted names, both families, all front-ends
-    let names: [&[u8]; 10] = [b"MQTT", b"MQIsdp", b"MQTt", b"", b"MQTTT", &[0x4D, 0xFF, 0x54], b"mqtt",
-                              "xxxxxxxxx😀😀".as_bytes(), "ééééééééééééééééé".as_bytes(), "MQIsdp€€€€€€€€".as_bytes()];
+    // incl. a correct name followed by a byte that looks like a level (a reader that clamps or truncates the name
+    // would take that byte as the level), and proper prefixes of the correct names
+    let names: [&[u8]; 19] = [b"MQTT", b"MQIsdp", b"MQTt", b"", b"MQTTT", &[0x4D, 0xFF, 0x54], b"mqtt",
+                              "xxxxxxxxx😀😀".as_bytes(), "ééééééééééééééééé".as_bytes(), "MQIsdp€€€€€€€€".as_bytes(),
+                              b"MQIsdp\x03", b"MQIsdp\x04", b"MQIsdp\x05", b"MQTT\x03", b"MQTT\x04", b"MQTT\x05",
+                              b"MQT", b"MQIsd", b"MQTTMQTT"];
     for nm in names {
         for level in 0..=255u8 {
             let mut body = crate::topic::field(nm);
